@@ -1321,6 +1321,8 @@ class Interp:
             f, _ = v.cls.lookup("__iter__")
             if f is not None:
                 return self.iterate(self.call(f, [v], {}))
+            if any(getattr(c, "namedtuple", False) for c in v.cls.mro()):
+                return [v.fields[n] for n in v.cls.dc_fields()]
         raise Unsupported(f"iteration over {v!r}")
 
     # ------------------------------------------------------------------ comprehensions
